@@ -122,11 +122,17 @@ def main():
         obligations += r_obl
         discharged += r_dis
         if not r_ok:
-            violations.append(("regenerated-obligation", r_detail.get("broken", "regenerated theorem")
-                               if isinstance(r_detail, dict) else "regenerated theorem",
-                               r_detail.get("input") if isinstance(r_detail, dict) else None,
-                               r_detail.get("observed") if isinstance(r_detail, dict) else None,
-                               r_detail))
+            for dct in (r_detail if isinstance(r_detail, list) else [r_detail]):
+                if not isinstance(dct, dict):
+                    dct = {"kind": "no-failing-input-found", "broken": "regenerated theorem", "why": str(dct)}
+                k = match_known(P, findings, dct.get("input"), dct.get("observed") or {}, dct.get("why", ""))
+                if k:
+                    line = f"KNOWN-FINDING: property={pid} {k['id']}: {k['what']}"
+                    if line not in known_lines:
+                        known_lines.append(line)
+                    continue
+                violations.append((dct.get("kind", "no-failing-input-found"), dct.get("broken", "regenerated theorem"),
+                                   dct.get("input"), dct.get("observed"), dct.get("why", "")))
 
     # ---- 4. correspondence + oracle ------------------------------------------------------------
     rng = core.Rng(seed * 1000003 + sum(map(ord, pid)))
@@ -173,7 +179,7 @@ def main():
     coq_results, coq_s, coq_logs = ([], 0.0, [])
     if not build_broken:
         coq_results, coq_s, coq_logs = core.eval_cases_in_coq(
-            pid, P.CHECK_REQUIRE, terms, shard=getattr(P, "SHARD", 150))
+            pid, P.CHECK_REQUIRE, terms, shard=getattr(P, "SHARD", 150), extra_Q=getattr(P, "EXTRA_Q", ()))
     agree = sum(1 for r in coq_results if r is True)
     disagree_idx = [i for i, r in enumerate(coq_results) if r is not True]
 
@@ -313,7 +319,7 @@ def shrink(P, case, obs, budget=60):
                 t = P.term(cand, o)
             except Exception:
                 continue
-            res, _, _ = core.eval_cases_in_coq(P.ID + "s", P.CHECK_REQUIRE, [t])
+            res, _, _ = core.eval_cases_in_coq(P.ID + "s", P.CHECK_REQUIRE, [t], extra_Q=getattr(P, "EXTRA_Q", ()))
             if res and res[0] is False:
                 cur, cur_obs = cand, o
                 improved = True
